@@ -23,6 +23,7 @@ pub mod capi_sched;
 pub mod locks;
 pub mod handles;
 pub mod snapsched;
+pub mod backup;
 
 pub fn all() -> Vec<StreamDef> {
     vec![
@@ -31,6 +32,7 @@ pub fn all() -> Vec<StreamDef> {
         locks::def(),
         handles::def(),
         snapsched::def(),
+        backup::def(),
     ]
 }
 
